@@ -477,6 +477,53 @@ def check_setters(prog, rep, K):
             rep.ok("R5-setter", construct, "stores the array it is given (a scalar is broadcast first)")
 
 
+def check_owned(prog, rep, K):
+    """R6-owned: a field some method of the class overwrites in place (`self.scale[:] = 1.0` in the in-place unscale) belongs to one object: the shallow copy gives the
+    copy its own array.  Otherwise an in-place unscale of a copy resets the location / scale of its source, whose stored matrix is still standardised - and
+    unscaling the source no longer reproduces the raw values."""
+    if prog.mro(K) is None:
+        return
+    written = {}
+    for name in prog.all_methods(K):
+        f = prog.lookup_method(K, name)
+        if f is None:
+            continue
+        for st in walk_no_nested(f.node):
+            tg = st.targets if isinstance(st, ast.Assign) else ([st.target] if isinstance(st, ast.AugAssign) else [])
+            for t in tg:
+                if isinstance(t, ast.Subscript) and isinstance(t.value, ast.Attribute) and dump(t.value.value) == "self" and t.value.attr.lstrip("_") in ("location", "scale"):
+                    written.setdefault(t.value.attr.lstrip("_"), f)
+    if not written:
+        return
+    f = prog.lookup_method(K, "__copy__")
+    if f is None:
+        return
+    rep.saw(f)
+    ctors = [c for c in walk_no_nested(f.node) if isinstance(c, ast.Call) and dump(c.func) in ("self.__class__", "type(self)", K.name)]
+    if len(ctors) != 1:
+        rep.unrec("R6-owned", "%s.__copy__" % K.qualname, "construction of the copy not found")
+        return
+    kws, _ = kwargs_of(ctors[0])
+    params = prog.init_params(K)
+    bound = dict(zip(params, ctors[0].args))
+    bound.update(kws)
+    for fld, wf in sorted(written.items()):
+        construct = "%s.__copy__[%s]" % (K.qualname, fld)
+        v = bound.get(fld)
+        if v is None:
+            rep.unrec("R6-owned", construct, "%s not handed to the copy's constructor" % fld)
+            continue
+        fresh = isinstance(v, ast.Call) and ((prog.dotted(f.module, v.func) or dump(v.func)) in ("copy.copy", "copy.deepcopy", "numpy.array", "numpy.copy")
+                                             or (isinstance(v.func, ast.Attribute) and v.func.attr == "copy"))
+        if fresh:
+            rep.ok("R6-owned", construct, "the copy gets its own %s array (%s overwrites it in place)" % (fld, wf.name))
+        elif field_of(v) in (fld, "_" + fld):
+            rep.violate("R6-owned", construct, "the shallow copy shares its %s array with its source, and %s overwrites that array in place: an in-place unscale of the copy resets the "
+                        "source's %s while the source's matrix is still standardised" % (fld, wf.qualname.split(":")[-1], fld), where(f, ctors[0]), "copy.copy(self.%s)" % fld, dump(v))
+        else:
+            rep.unrec("R6-owned", construct, "%s of the copy is %s" % (fld, dump(v)[:40]))
+
+
 def run(prog, rep, tier):
     rep.explanation = ("Algebraic normal-form proof that unscale o from_numpy is the identity (with the 0 -> 1 scale substitution ahead of the division and a two-pass "
                        "standard deviation), RAW/SCALED unit typing of the taxa operations through the field-flow evaluator, invariant restoration of mutators, "
@@ -491,6 +538,9 @@ def run(prog, rep, tier):
         check_statistics(prog, rep, K)
         check_setters(prog, rep, K)
     check_setters(prog, rep, prog.get_class(SCALED_BASE[1], SCALED_BASE[0]))
+    for mod, cname in list(BV) + [SCALED_BASE]:
+        check_owned(prog, rep, prog.get_class(cname, mod))
+    rep.floor("R6-owned", 2)
     check_guard_order(prog, rep)
     check_stat_purity(prog, rep)
     wire(prog, rep, "C15", 3, 50)
